@@ -133,7 +133,7 @@ def binop(op, lk, a, rk, b):
             raise Fail("zero divisor")
         if op == "/":
             return k, fdiv(x, y)
-        return k, math.fmod(x, y) if not (math.isinf(x)) else float("nan")
+        return k, math.fmod(x, y) if not (math.isinf(x) or x != x or y != y) else float("nan")
     if op == "+":
         return k, fit(k, a + b)
     if op == "-":
@@ -174,8 +174,9 @@ VALUES = {
     "int": [0, 1, -1, 2, -2, I32_MAX, I32_MIN, 31, 32, 65536, I32_MAX - 1, I32_MIN + 1],
     "bigint": [0, 1, -1, 2 ** 31, -2 ** 31 - 1, 2 ** 63, I128_MAX, I128_MIN, -2 ** 63, 2 ** 126, 127, 128, 3],
     "byte": [0, 1, 255, 2, 7, 8, 127, 128, 254],
-    "float": [0.0, 1.5, -1.5, 0.5, -0.0, 1e300, 1e-300, 2.0 ** 53, 1e19, 3.0, 9007199254740993.0],
+    "float": [0.0, 1.5, -1.5, 0.5, -0.0, 1e300, 1e-300, 2.0 ** 53, 1e19, 3.0, 9007199254740993.0, math.inf, -math.inf, math.nan],
 }
+NONFINITE = (11, 12, 13)      # positions of inf, -inf, NaN in VALUES["float"]
 
 
 def construct(kind, v, name, tmp):
@@ -196,6 +197,14 @@ def construct(kind, v, name, tmp):
     if kind == "byte":
         return [f"{name} = 0b{bin(v)[2:]}"]
     if kind == "float":
+        if v != v or v in (math.inf, -math.inf):
+            # no literal denotes a non-finite double: they come out of earlier operations (overflowing product, inf - inf)
+            ls = [f"{tmp} = {float_literal(1e300)}", f"{name} = {tmp} * {tmp}"]
+            if v != v:
+                ls.append(f"{name} = {name} - {name}")
+            elif v < 0:
+                ls += [f"{tmp} = 0.0", f"{name} = {tmp} - {name}"]
+            return ls
         if math.copysign(1.0, v) > 0:
             return [f"{name} = {float_literal(v)}"]
         if v == 0.0:
